@@ -1,8 +1,13 @@
 (* C03 — group product, inverse, identity and point action obey the group laws; matrix() is a
    homomorphism with the documented blocks; validity is preserved over any history.
-   Statements only (over R); proofs in Proofs/LieGroup.v. *)
+   Statements only (over R); proofs in Proofs/LieGroup.v, LieGroup2.v (homogeneous action of products,
+   identity / inverse under matrix(), accessor blocks and identity constructors on tensor rows),
+   LieGroup3.v (histories with Retr / add_ / +: exact validity and the drift bound in exact arithmetic),
+   LieGroup4.v (round-off under the standard model of floating-point arithmetic). *)
 From Coq Require Import Reals List.
-From PV Require Import Base.Num Model.LieGroup Proofs.LieGroup.
+Import ListNotations.
+From PV Require Import Base.Num Model.LieGroup Model.LieExp Model.LieLog Model.LieJac Model.LieTangent
+  Proofs.LieGroup Proofs.LieExp Proofs.LieGroup2 Proofs.LieGroup3 Proofs.LieGroup4.
 Local Open Scope R_scope.
 #[local] Remove Hints NumQ NumZ : typeclass_instances.
 
@@ -99,8 +104,261 @@ Theorem C03_norm_drift : forall ops (X : quatR),
   qnorm2 (fold_left (hstep quatR SO3_mul SO3_inv) ops X) = qnorm2 X * norm_prod ops.
 Proof. exact qnorm2_history. Qed.
 
+
+(* ================= strengthening round (Proofs/LieGroup2.v, LieGroup3.v) ================= *)
+
+(* --- (X@Y).Act(p) = X.Act(Y.Act(p)) on homogeneous 4-vectors, EVERY weight w (points w = 1, directions w = 0,
+   any other w) *)
+Theorem C03_act4_of_product :
+  (forall (X Y : quatR) (p : vec4R), unitq X -> unitq Y -> SO3_act4 (SO3_mul X Y) p = SO3_act4 X (SO3_act4 Y p)) /\
+  (forall (X Y : se3R) (p : vec4R), valid_SE3 X -> valid_SE3 Y -> SE3_act4 (SE3_mul X Y) p = SE3_act4 X (SE3_act4 Y p)) /\
+  (forall (X Y : rxso3R) (p : vec4R), unitq (fst X) -> unitq (fst Y) -> RxSO3_act4 (RxSO3_mul X Y) p = RxSO3_act4 X (RxSO3_act4 Y p)) /\
+  (forall (X Y : sim3R) (p : vec4R), unitq (fst (snd X)) -> unitq (fst (snd Y)) -> Sim3_act4 (Sim3_mul X Y) p = Sim3_act4 X (Sim3_act4 Y p)).
+Proof. split; [exact SO3_act4_mul | split; [exact SE3_act4_mul | split; [exact RxSO3_act4_mul | exact Sim3_act4_mul]]]. Qed.
+
+(* Act on 3-vectors is the 4x4 matrix() applied to (p, 1) (RxSO3: any w); a direction (w = 0) is not translated;
+   for a general weight the translation enters w times *)
+Theorem C03_act3_is_matrix4 :
+  (forall (X : se3R) (p : vec3R), (SE3_act X p, 1) = mv4 (matrix4 SE3_act4 X) (p, 1)) /\
+  (forall (X : sim3R) (p : vec3R), (Sim3_act X p, 1) = mv4 (matrix4 Sim3_act4 X) (p, 1)) /\
+  (forall (X : rxso3R) (p : vec3R) (w : R), (RxSO3_act X p, w) = mv4 (matrix4 RxSO3_act4 X) (p, w)) /\
+  (forall (X : se3R) (d : vec3R), SE3_act4 X (d, 0) = (SO3_act (snd X) d, 0)) /\
+  (forall (X : sim3R) (d : vec3R), Sim3_act4 X (d, 0) = (RxSO3_act (snd X) d, 0)) /\
+  (forall (X : se3R) (p : vec3R) (w : R), SE3_act4 X (p, w) = (vadd (SO3_act (snd X) p) (vscale w (fst X)), w)) /\
+  (forall (X : sim3R) (p : vec3R) (w : R), Sim3_act4 X (p, w) = (vadd (RxSO3_act (snd X) p) (vscale w (fst X)), w)).
+Proof.
+  split; [exact SE3_act_is_matrix4 | split; [exact Sim3_act_is_matrix4 | split; [exact RxSO3_act_is_matrix4 |
+  split; [exact SE3_act4_direction | split; [exact Sim3_act4_direction | split; [exact SE3_act4_weight | exact Sim3_act4_weight]]]]]].
+Qed.
+
+(* --- the homomorphism maps the identity to the unit matrix and Inv to the inverse matrix *)
+Theorem C03_matrix_of_identity :
+  SO3_matrix SO3_id = mid3 /\ matrix4 SE3_act4 SE3_id = block4 mid3 vzero /\
+  matrix4 RxSO3_act4 RxSO3_id = block4 mid3 vzero /\ matrix4 Sim3_act4 Sim3_id = block4 mid3 vzero.
+Proof. split; [exact SO3_matrix_id | split; [exact SE3_matrix_id | split; [exact RxSO3_matrix_id | exact Sim3_matrix_id]]]. Qed.
+Theorem C03_matrix_of_inverse :
+  (forall X : quatR, SO3_matrix (SO3_inv X) = mtrans (SO3_matrix X)) /\
+  (forall X : se3R, valid_SE3 X ->
+     mm4 (matrix4 SE3_act4 X) (matrix4 SE3_act4 (SE3_inv X)) = block4 mid3 vzero /\
+     mm4 (matrix4 SE3_act4 (SE3_inv X)) (matrix4 SE3_act4 X) = block4 mid3 vzero) /\
+  (forall X : rxso3R, valid_RxSO3 X ->
+     mm4 (matrix4 RxSO3_act4 X) (matrix4 RxSO3_act4 (RxSO3_inv X)) = block4 mid3 vzero /\
+     mm4 (matrix4 RxSO3_act4 (RxSO3_inv X)) (matrix4 RxSO3_act4 X) = block4 mid3 vzero) /\
+  (forall X : sim3R, valid_Sim3 X ->
+     mm4 (matrix4 Sim3_act4 X) (matrix4 Sim3_act4 (Sim3_inv X)) = block4 mid3 vzero /\
+     mm4 (matrix4 Sim3_act4 (Sim3_inv X)) (matrix4 Sim3_act4 X) = block4 mid3 vzero).
+Proof. split; [exact SO3_matrix_inv | split; [exact SE3_matrix_inv | split; [exact RxSO3_matrix_inv | exact Sim3_matrix_inv]]]. Qed.
+(* the rotation block of a valid element is a rotation matrix: R R^T = R^T R = I, det R = 1 *)
+Theorem C03_rotation_block_is_rotation : forall X : quatR, unitq X ->
+  mmul3 (SO3_matrix X) (mtrans (SO3_matrix X)) = mid3 /\ mmul3 (mtrans (SO3_matrix X)) (SO3_matrix X) = mid3 /\
+  mdet3 (SO3_matrix X) = 1.
+Proof. intros X H. split; [exact (SO3_matrix_orth X H) | split; [exact (SO3_matrix_orth' X H) | exact (SO3_matrix_det X H)]]. Qed.
+
+(* --- Inv undoes Act on 3- and 4-vectors; Inv is an involution and reverses products *)
+Theorem C03_inverse_undoes_action :
+  (forall (X : quatR) p, unitq X -> SO3_act (SO3_inv X) (SO3_act X p) = p /\ SO3_act X (SO3_act (SO3_inv X) p) = p) /\
+  (forall (X : se3R) p, valid_SE3 X -> SE3_act (SE3_inv X) (SE3_act X p) = p /\ SE3_act X (SE3_act (SE3_inv X) p) = p) /\
+  (forall (X : sim3R) p, valid_Sim3 X -> Sim3_act (Sim3_inv X) (Sim3_act X p) = p /\ Sim3_act X (Sim3_act (Sim3_inv X) p) = p) /\
+  (forall (X : se3R) (p : vec4R), valid_SE3 X -> SE3_act4 (SE3_inv X) (SE3_act4 X p) = p /\ SE3_act4 X (SE3_act4 (SE3_inv X) p) = p) /\
+  (forall (X : sim3R) (p : vec4R), valid_Sim3 X -> Sim3_act4 (Sim3_inv X) (Sim3_act4 X p) = p /\ Sim3_act4 X (Sim3_act4 (Sim3_inv X) p) = p).
+Proof.
+  split; [intros X p H; split; [exact (SO3_act_inv X p H) | exact (SO3_act_inv' X p H)]|].
+  split; [exact SE3_act_inv | split; [exact Sim3_act_inv | split; [exact SE3_act4_inv | exact Sim3_act4_inv]]].
+Qed.
+Theorem C03_inverse_of_product :
+  (forall X Y : quatR, SO3_inv (SO3_mul X Y) = SO3_mul (SO3_inv Y) (SO3_inv X)) /\
+  (forall X Y : se3R, valid_SE3 X -> valid_SE3 Y -> SE3_inv (SE3_mul X Y) = SE3_mul (SE3_inv Y) (SE3_inv X)) /\
+  (forall X Y : rxso3R, snd X <> 0 -> snd Y <> 0 -> RxSO3_inv (RxSO3_mul X Y) = RxSO3_mul (RxSO3_inv Y) (RxSO3_inv X)) /\
+  (forall X Y : sim3R, valid_Sim3 X -> valid_Sim3 Y -> Sim3_inv (Sim3_mul X Y) = Sim3_mul (Sim3_inv Y) (Sim3_inv X)) /\
+  (forall X : quatR, SO3_inv (SO3_inv X) = X) /\ (forall X : se3R, valid_SE3 X -> SE3_inv (SE3_inv X) = X) /\
+  (forall X : rxso3R, snd X <> 0 -> RxSO3_inv (RxSO3_inv X) = X) /\ (forall X : sim3R, valid_Sim3 X -> Sim3_inv (Sim3_inv X) = X).
+Proof.
+  split; [exact SO3_inv_mul | split; [exact SE3_inv_mul | split; [exact RxSO3_inv_mul | split; [exact Sim3_inv_mul |
+  split; [exact SO3_inv_inv | split; [exact SE3_inv_inv | split; [exact RxSO3_inv_inv | exact Sim3_inv_inv]]]]]]].
+Qed.
+
+(* --- the unit-quaternion hypothesis of the product laws cannot be dropped: for the non-unit quaternion
+   ((1,0,0),1) the library's Act formula is not multiplicative and SE3 products are not associative *)
+Theorem C03_product_laws_need_unit_quaternion :
+  (exists (X Y : quatR) p, SO3_act (SO3_mul X Y) p <> SO3_act X (SO3_act Y p)) /\
+  (exists X Y Z : se3R, SE3_mul (SE3_mul X Y) Z <> SE3_mul X (SE3_mul Y Z)).
+Proof.
+  split; [exists q_nonunit, q_nonunit, (0, 1, 0); exact act_mul_needs_unit |
+          exists (vzero, q_nonunit), (vzero, q_nonunit), ((0, 1, 0), SO3_id); exact SE3_assoc_needs_unit].
+Qed.
+
+(* --- tensor-row level (what the API returns), all four groups g = 0 SO3, 1 SE3, 2 RxSO3, 3 Sim3:
+   matrix() is exactly the documented block matrix [[s R(rotation()), translation()],[0, 1]] (3x3 R for SO3)
+   built from what rotation(), translation(), scale() return; shapes and layout of the accessors *)
+Theorem C03_matrix_blocks_are_the_accessors : forall (g : nat) (x : list R), (g < 4)%nat -> length x = gdim g ->
+  g_matrix g x =
+    match g with
+    | 0%nat => m3_l (SO3_matrix (l_q (g_rotation g x)))
+    | _ => m4_l (block4 (mscale3 (nth 0 (g_scale g x) 0) (SO3_matrix (l_q (g_rotation g x)))) (l_v3 (g_translation g x)))
+    end.
+Proof. exact matrix_accessor_blocks. Qed.
+Theorem C03_accessor_layout : forall (g : nat) (x : list R), (g < 4)%nat -> length x = gdim g ->
+  length (g_rotation g x) = 4%nat /\ length (g_translation g x) = 3%nat /\ length (g_scale g x) = 1%nat /\
+  x = (match g with 1%nat | 3%nat => g_translation g x | _ => [] end) ++ g_rotation g x ++
+      (match g with 2%nat | 3%nat => g_scale g x | _ => [] end).
+Proof. exact accessor_layout. Qed.
+(* identity constructors (identity, identity_like, identity_ all produce this row): the rows, and neutrality for
+   product, inverse, matrix and both actions on rows *)
+Theorem C03_identity_rows :
+  g_id (F:=R) 0 = [0; 0; 0; 1] /\ g_id (F:=R) 1 = [0; 0; 0; 0; 0; 0; 1] /\ g_id (F:=R) 2 = [0; 0; 0; 1; 1] /\
+  g_id (F:=R) 3 = [0; 0; 0; 0; 0; 0; 1; 1].
+Proof. exact identity_rows. Qed.
+Theorem C03_identity_rows_neutral : forall (g : nat) (x : list R), (g < 4)%nat -> length x = gdim g ->
+  g_mul g (g_id g) x = x /\ g_mul g x (g_id g) = x /\ g_inv g (g_id g) = g_id g /\
+  g_matrix g (g_id g) = doc_matrix g [0; 0; 0; 1] [0; 0; 0] [1] /\
+  (forall p, length p = 3%nat -> g_act g (g_id g) p = p) /\
+  (forall p, length p = 4%nat -> g_act4 g (g_id g) p = p).
+Proof. exact identity_neutral_rows. Qed.
+
+(* --- histories that mix @ (both sides), Inv and Retr / add_ / + (X := Exp(a) @ X), ANY length.
+   [eps] is the dtype's machine epsilon (so3_Exp switches to its Taylor branch for |phi| <= eps).
+   (1) exact validity when every retraction increment is on the closed-form branch (eps < |phi|) *)
+Theorem C03_valid_retr_history_SO3 : forall (eps : R) ops X, 0 <= eps -> valid_SO3 X ->
+  Forall (valid_rop quatR vec3R (fun q => q) ptrue) ops -> Forall (closed_rop quatR vec3R (fun a => a) eps) ops ->
+  valid_SO3 (fold_left (rstep quatR vec3R SO3_mul SO3_inv (so3_exp eps)) ops X).
+Proof. exact so3_valid_rhistory. Qed.
+Theorem C03_valid_retr_history_SE3 : forall (eps : R) ops X, 0 <= eps -> valid_SE3 X ->
+  Forall (valid_rop se3R (vec3R * vec3R) snd ptrue) ops -> Forall (closed_rop se3R (vec3R * vec3R) snd eps) ops ->
+  valid_SE3 (fold_left (rstep se3R (vec3R * vec3R) SE3_mul SE3_inv (se3_exp eps)) ops X).
+Proof. exact se3_valid_rhistory. Qed.
+Theorem C03_valid_retr_history_RxSO3 : forall (eps : R) ops X, 0 <= eps -> valid_RxSO3 X ->
+  Forall (valid_rop rxso3R (vec3R * R) fst pos_RxSO3) ops -> Forall (closed_rop rxso3R (vec3R * R) fst eps) ops ->
+  valid_RxSO3 (fold_left (rstep rxso3R (vec3R * R) RxSO3_mul RxSO3_inv (rxso3_exp eps)) ops X).
+Proof. exact rxso3_valid_rhistory. Qed.
+Theorem C03_valid_retr_history_Sim3 : forall (eps : R) ops X, 0 <= eps -> valid_Sim3 X ->
+  Forall (valid_rop sim3R (vec3R * (vec3R * R)) (fun X => fst (snd X)) pos_Sim3) ops ->
+  Forall (closed_rop sim3R (vec3R * (vec3R * R)) (fun a => fst (snd a)) eps) ops ->
+  valid_Sim3 (fold_left (rstep sim3R (vec3R * (vec3R * R)) Sim3_mul Sim3_inv (sim3_exp eps)) ops X).
+Proof. exact sim3_valid_rhistory. Qed.
+(* (2) the scale stays positive after every history, whatever the increments *)
+Theorem C03_positive_scale_retr_history :
+  (forall (eps : R) ops (X : rxso3R), 0 < snd X -> Forall (valid_rop rxso3R (vec3R * R) fst pos_RxSO3) ops ->
+     0 < snd (fold_left (rstep rxso3R (vec3R * R) RxSO3_mul RxSO3_inv (rxso3_exp eps)) ops X)) /\
+  (forall (eps : R) ops (X : sim3R), 0 < snd (snd X) ->
+     Forall (valid_rop sim3R (vec3R * (vec3R * R)) (fun X => fst (snd X)) pos_Sim3) ops ->
+     0 < snd (snd (fold_left (rstep sim3R (vec3R * (vec3R * R)) Sim3_mul Sim3_inv (sim3_exp eps)) ops X))).
+Proof. split; [exact rxso3_pos_rhistory | exact sim3_pos_rhistory]. Qed.
+(* (3) drift of the unit-norm invariant in exact arithmetic, whatever the increments: starting within e0 of unit
+   norm, after any history | |q|^2 - 1 | <= (1 + e0) (1 + eps^6/20000)^k - 1 with k the number of retractions
+   whose increment is on the Taylor branch (C01: closed-form branch exact, Taylor branch within theta^6/20000) *)
+Theorem C03_drift_retr_history_SO3 : forall (eps : R) ops (X : quatR) (e0 : R), 0 <= eps <= 1 / 1024 -> 0 <= e0 ->
+  Rabs (qnorm2 X - 1) <= e0 -> Forall (valid_rop quatR vec3R (fun q => q) ptrue) ops ->
+  Rabs (qnorm2 (fold_left (rstep quatR vec3R SO3_mul SO3_inv (so3_exp eps)) ops X) - 1)
+    <= (1 + e0) * (1 + eps ^ 6 / 20000) ^ count_small quatR vec3R (fun a => a) eps ops - 1.
+Proof. exact so3_drift_rhistory. Qed.
+Theorem C03_drift_retr_history_SE3 : forall (eps : R) ops (X : se3R) (e0 : R), 0 <= eps <= 1 / 1024 -> 0 <= e0 ->
+  Rabs (qnorm2 (snd X) - 1) <= e0 -> Forall (valid_rop se3R (vec3R * vec3R) snd ptrue) ops ->
+  Rabs (qnorm2 (snd (fold_left (rstep se3R (vec3R * vec3R) SE3_mul SE3_inv (se3_exp eps)) ops X)) - 1)
+    <= (1 + e0) * (1 + eps ^ 6 / 20000) ^ count_small se3R (vec3R * vec3R) snd eps ops - 1.
+Proof. exact se3_drift_rhistory. Qed.
+Theorem C03_drift_retr_history_RxSO3 : forall (eps : R) ops (X : rxso3R) (e0 : R), 0 <= eps <= 1 / 1024 -> 0 <= e0 ->
+  Rabs (qnorm2 (fst X) - 1) <= e0 -> Forall (valid_rop rxso3R (vec3R * R) fst pos_RxSO3) ops ->
+  Rabs (qnorm2 (fst (fold_left (rstep rxso3R (vec3R * R) RxSO3_mul RxSO3_inv (rxso3_exp eps)) ops X)) - 1)
+    <= (1 + e0) * (1 + eps ^ 6 / 20000) ^ count_small rxso3R (vec3R * R) fst eps ops - 1.
+Proof. exact rxso3_drift_rhistory. Qed.
+Theorem C03_drift_retr_history_Sim3 : forall (eps : R) ops (X : sim3R) (e0 : R), 0 <= eps <= 1 / 1024 -> 0 <= e0 ->
+  Rabs (qnorm2 (fst (snd X)) - 1) <= e0 ->
+  Forall (valid_rop sim3R (vec3R * (vec3R * R)) (fun X => fst (snd X)) pos_Sim3) ops ->
+  Rabs (qnorm2 (fst (snd (fold_left (rstep sim3R (vec3R * (vec3R * R)) Sim3_mul Sim3_inv (sim3_exp eps)) ops X))) - 1)
+    <= (1 + e0) * (1 + eps ^ 6 / 20000) ^ count_small sim3R (vec3R * (vec3R * R)) (fun a => fst (snd a)) eps ops - 1.
+Proof. exact sim3_drift_rhistory. Qed.
+(* (3') linear form from a valid start: | |q_n|^2 - 1 | <= k eps^6 / 10000 <= n eps^6 / 10000 for every history
+   of length n with n eps^6 <= 10000 (n <= 10^4 and far beyond, both dtypes) *)
+Theorem C03_drift_retr_history_linear :
+  (forall (eps : R) ops (X : quatR), 0 <= eps <= 1 / 1024 -> valid_SO3 X ->
+     Forall (valid_rop quatR vec3R (fun q => q) ptrue) ops -> INR (length ops) * eps ^ 6 <= 10000 ->
+     Rabs (qnorm2 (fold_left (rstep quatR vec3R SO3_mul SO3_inv (so3_exp eps)) ops X) - 1)
+       <= INR (count_small quatR vec3R (fun a => a) eps ops) * eps ^ 6 / 10000) /\
+  (forall (eps : R) ops (X : se3R), 0 <= eps <= 1 / 1024 -> valid_SE3 X ->
+     Forall (valid_rop se3R (vec3R * vec3R) snd ptrue) ops -> INR (length ops) * eps ^ 6 <= 10000 ->
+     Rabs (qnorm2 (snd (fold_left (rstep se3R (vec3R * vec3R) SE3_mul SE3_inv (se3_exp eps)) ops X)) - 1)
+       <= INR (count_small se3R (vec3R * vec3R) snd eps ops) * eps ^ 6 / 10000) /\
+  (forall (eps : R) ops (X : rxso3R), 0 <= eps <= 1 / 1024 -> valid_RxSO3 X ->
+     Forall (valid_rop rxso3R (vec3R * R) fst pos_RxSO3) ops -> INR (length ops) * eps ^ 6 <= 10000 ->
+     Rabs (qnorm2 (fst (fold_left (rstep rxso3R (vec3R * R) RxSO3_mul RxSO3_inv (rxso3_exp eps)) ops X)) - 1)
+       <= INR (count_small rxso3R (vec3R * R) fst eps ops) * eps ^ 6 / 10000) /\
+  (forall (eps : R) ops (X : sim3R), 0 <= eps <= 1 / 1024 -> valid_Sim3 X ->
+     Forall (valid_rop sim3R (vec3R * (vec3R * R)) (fun X => fst (snd X)) pos_Sim3) ops ->
+     INR (length ops) * eps ^ 6 <= 10000 ->
+     Rabs (qnorm2 (fst (snd (fold_left (rstep sim3R (vec3R * (vec3R * R)) Sim3_mul Sim3_inv (sim3_exp eps)) ops X))) - 1)
+       <= INR (count_small sim3R (vec3R * (vec3R * R)) (fun a => fst (snd a)) eps ops) * eps ^ 6 / 10000).
+Proof.
+  split; [exact so3_drift_rhistory_linear | split; [exact se3_drift_rhistory_linear |
+  split; [exact rxso3_drift_rhistory_linear | exact sim3_drift_rhistory_linear]]].
+Qed.
+(* the number of Taylor-branch retractions is at most the length; it is 0 when all increments are closed-form *)
+Theorem C03_count_small_bounds : forall (eps : R) (ops : list (rop sim3R (vec3R * (vec3R * R)))),
+  (count_small sim3R (vec3R * (vec3R * R)) (fun a => fst (snd a)) eps ops <= length ops)%nat /\
+  (Forall (closed_rop sim3R (vec3R * (vec3R * R)) (fun a => fst (snd a)) eps) ops ->
+   count_small sim3R (vec3R * (vec3R * R)) (fun a => fst (snd a)) eps ops = 0%nat).
+Proof.
+  intros eps ops. split; [apply count_small_le_length | apply count_small_closed].
+Qed.
+(* the RRetr step of these histories IS the modelled Retr(X, a) / X.add_(a ++ tail) / X + (a ++ tail)
+   (Model/LieTangent.v, the functions tied to the code), components beyond the algebra dimension ignored *)
+Theorem C03_retr_step_is_the_modelled_Retr : forall (eps : R) (X : sim3R) (a : vec3R * (vec3R * R)) (tail : list R),
+  retr_l eps 3 (Sim3_l X) (sim3_alg_l a) =
+    Sim3_l (rstep sim3R (vec3R * (vec3R * R)) Sim3_mul Sim3_inv (sim3_exp eps) X (RRetr _ _ a)) /\
+  add_group_l eps 3 (Sim3_l X) (sim3_alg_l a ++ tail) =
+    Sim3_l (rstep sim3R (vec3R * (vec3R * R)) Sim3_mul Sim3_inv (sim3_exp eps) X (RRetr _ _ a)).
+Proof. exact retr_rows_Sim3. Qed.
+(* non-vacuity: a valid Sim3 element and a history using every kind of update (closed-form, small-angle and
+   zero increments) satisfy the hypotheses; two of its retractions are on the Taylor branch *)
+Theorem C03_retr_history_hypotheses_satisfiable :
+  valid_Sim3 ex_X /\ Forall (valid_rop sim3R (vec3R * (vec3R * R)) (fun X => fst (snd X)) pos_Sim3) ex_ops /\
+  count_small sim3R (vec3R * (vec3R * R)) (fun a => fst (snd a)) (1 / 1024) ex_ops = 2%nat /\
+  Forall (valid_rop sim3R (vec3R * (vec3R * R)) (fun X => fst (snd X)) pos_Sim3) ex_ops_closed /\
+  Forall (closed_rop sim3R (vec3R * (vec3R * R)) (fun a => fst (snd a)) (1 / 1024)) ex_ops_closed.
+Proof.
+  split; [exact ex_X_valid | split; [exact ex_ops_valid | split; [exact ex_ops_small | exact ex_ops_closed_ok]]].
+Qed.
+
+
+(* --- "up to accumulated round-off" under the standard model of floating-point arithmetic.
+   [SO3_mul_fl d X Y] (Proofs/LieGroup4.v) is the Hamilton product evaluated in the order of SO3_Mul.forward
+   (Zv = Xw*Yv + Xv*Yw + cross(Xv,Yv), Zw = Xw*Yw - sum(Xv*Yv)) where the result of the k-th of its 28 arithmetic
+   operations is multiplied by (1 + d k); with d = 0 it is the model's product.  For ANY errors |d k| <= u
+   (any rounding mode, fused multiply-add included) the squared norm of the computed product is within the
+   relative error 4g + 4g^2, g = (1+u)^4 - 1, of |X|^2 |Y|^2 - about 16 u, at most 17 u for u <= 2^-10.
+   It is a statement about this arithmetic model, not about the tied model: IEEE rounding itself stays tie-only. *)
+Theorem C03_rounded_product_is_exact_without_errors : forall X Y : quatR, SO3_mul_fl (fun _ => 0) X Y = SO3_mul X Y.
+Proof. exact SO3_mul_fl_exact. Qed.
+Theorem C03_rounded_product_norm : forall (u : R) (d : nat -> R) (X Y : quatR), 0 <= u -> (forall k, Rabs (d k) <= u) ->
+  Rabs (qnorm2 (SO3_mul_fl d X Y) - qnorm2 X * qnorm2 Y)
+    <= (4 * ((1 + u) ^ 4 - 1) + 4 * (((1 + u) ^ 4 - 1) * ((1 + u) ^ 4 - 1))) * (qnorm2 X * qnorm2 Y).
+Proof. exact SO3_mul_fl_norm. Qed.
+(* histories of n rounded products (either side, fresh errors in every product) and exact inverses, factors within
+   e of unit norm, start within e0:  | |q_n|^2 - 1 | <= (1+e0) ((1+e)(1+c))^n - 1,  c = 4g + 4g^2 <= 17 u *)
+Theorem C03_rounded_history_drift : forall (u e : R), 0 <= u -> 0 <= e -> forall (ops : list fop) (X : quatR) (e0 : R),
+  0 <= e0 -> Rabs (qnorm2 X - 1) <= e0 -> Forall (fop_ok u e) ops ->
+  Rabs (qnorm2 (fold_left fstep ops X) - 1) <= (1 + e0) * ((1 + e) * (1 + cc u)) ^ count_mul ops - 1.
+Proof. exact fl_history_drift. Qed.
+Theorem C03_rounding_constant_small : forall u : R, 0 <= u <= 1 / 1024 ->
+  cc u = 4 * ((1 + u) ^ 4 - 1) + 4 * (((1 + u) ^ 4 - 1) * ((1 + u) ^ 4 - 1)) /\ cc u <= 17 * u.
+Proof. intros u Hu. split; [reflexivity | exact (cc_small u Hu)]. Qed.
+Theorem C03_rounded_history_hypotheses_satisfiable : forall u e : R, 0 <= u -> 0 <= e ->
+  Forall (fop_ok u e) [FMulL ((3/5, 0, 0), 4/5) (fun _ => 0); FInv; FMulR ((0, 1, 0), 0) (fun k => if Nat.even k then u else - u)].
+Proof. exact fop_ok_example. Qed.
+
 Print Assumptions C03_SO3_assoc. Print Assumptions C03_SE3_assoc. Print Assumptions C03_Sim3_assoc.
 Print Assumptions C03_SO3_inverse. Print Assumptions C03_SE3_inverse. Print Assumptions C03_RxSO3_inverse.
 Print Assumptions C03_Sim3_inverse. Print Assumptions C03_identity_neutral. Print Assumptions C03_matrix_blocks.
 Print Assumptions C03_act_is_matrix. Print Assumptions C03_matrix_homomorphism. Print Assumptions C03_act_of_product.
 Print Assumptions C03_SO3_Adj_is_matrix. Print Assumptions C03_valid_history_Sim3. Print Assumptions C03_norm_drift.
+Print Assumptions C03_act4_of_product. Print Assumptions C03_act3_is_matrix4. Print Assumptions C03_matrix_of_identity.
+Print Assumptions C03_matrix_of_inverse. Print Assumptions C03_rotation_block_is_rotation. Print Assumptions C03_inverse_undoes_action.
+Print Assumptions C03_inverse_of_product. Print Assumptions C03_product_laws_need_unit_quaternion.
+Print Assumptions C03_matrix_blocks_are_the_accessors. Print Assumptions C03_accessor_layout. Print Assumptions C03_identity_rows.
+Print Assumptions C03_identity_rows_neutral. Print Assumptions C03_valid_retr_history_SO3. Print Assumptions C03_valid_retr_history_SE3.
+Print Assumptions C03_valid_retr_history_RxSO3. Print Assumptions C03_valid_retr_history_Sim3. Print Assumptions C03_positive_scale_retr_history.
+Print Assumptions C03_drift_retr_history_SO3. Print Assumptions C03_drift_retr_history_SE3. Print Assumptions C03_drift_retr_history_RxSO3.
+Print Assumptions C03_drift_retr_history_Sim3. Print Assumptions C03_drift_retr_history_linear. Print Assumptions C03_count_small_bounds.
+Print Assumptions C03_retr_step_is_the_modelled_Retr. Print Assumptions C03_retr_history_hypotheses_satisfiable.
+Print Assumptions C03_rounded_product_is_exact_without_errors. Print Assumptions C03_rounded_product_norm.
+Print Assumptions C03_rounded_history_drift. Print Assumptions C03_rounding_constant_small.
+Print Assumptions C03_rounded_history_hypotheses_satisfiable.
